@@ -83,7 +83,8 @@ class C05(Check):
         else:
             te = rng.choice(TES)
             clh = rng.choice([None, None, None, str(len(raw)), '2'])
-            ops = rng.choice([['B'], ['B'], ['B', 'B'], ['B', 'S'], ['S'], ['P2', 'B', 'I']])
+            ops = rng.choice([['B'], ['B'], ['B', 'B'], ['B', 'S'], ['S'], ['P2', 'B', 'I'], ['?B', 'B'], ['?B', '?B', 'I'],
+                              ['?S', '?B'], ['?B', '?S', '?B']])
             mk = '@' if rng.random() < .8 else rng.choice(list(bl.MAPS))
             res = bl.run_wsgi(mk, buf, maxb, clh, te, raw, sched, ops)
             out.append((bl.line_wsgi(mk, buf, maxb, clh, te, raw, sched, ops), bl.ans_wsgi(res),
@@ -133,6 +134,14 @@ class C05(Check):
                 return f'{what}:unit-accepted', f'{what}: _body_read ' + ('accepted it' if r['ok'] else f'raised {r["err"]}')
             if w['status'] != 400:
                 return f'{what}:wsgi-status', f'{what}: WSGI answered {w["status"]}, expected 400'
+        if not r['ok']:
+            # a rejected body stays rejected: a handler that caught the error and asks again must not be
+            # handed whatever is left of the stream as a complete body
+            w2 = bl.run_wsgi('@', buf, None, None, 'chunked', raw, sched, ['?B', '?B', '?S'])
+            toks = w2['outs']
+            if len(toks) != 3 or any(not t.startswith('e:HTTP4') for t in toks):
+                return ('second-access-after-error',
+                        f'{what}: first Request.body access was rejected, later accesses gave {toks[1:]}')
         elif expect[0] == 'ok-or-reject':
             if r['ok'] and r['bytes'] != expect[1]:
                 return f'{what}:wrong-body', f'{what}: accepted with a body other than the payload'
@@ -180,7 +189,14 @@ class C05(Check):
         base = dict(chunks=[(p.hex(), s.hex(), e.hex()) for p, s, e in enc.chunks],
                     last=(enc.last[0].hex(), enc.last[1].hex()), trailer=enc.trailer.hex(), buf=buf)
         raw = enc.encode()
-        mk = lambda **kw: dict(base, sched=bl.gen_sched(rng, max(1, len(raw))), **kw)
+        scheds = [[], [1] * (len(raw) + 2)]
+
+        def mk(**kw):
+            if kw['probe'] in ('crlf', 'crlf-del') or dense:     # full 2-byte reads and 1-byte reads alike
+                scheds.append(scheds.pop(0))
+                if rng.random() < .8:
+                    return dict(base, sched=scheds[0], **kw)
+            return dict(base, sched=bl.gen_sched(rng, max(1, len(raw))), **kw)
         yield mk(probe='legal')
         cuts = range(enc.end_lf() + 1) if dense else sorted({rng.randint(0, enc.end_lf()) for _ in range(4)}
                                                              | {enc.end_lf(), enc.end_lf() - 1})
@@ -213,6 +229,8 @@ class C05(Check):
         for _ in range(max(1, n // 30)):
             enc = bl.gen_enc(rng)
             cases += list(self._cases_of(rng, enc, bl.buf_for(rng, enc, rng.random() < .85), False))
+        # the coordinator's red-team input: a rejected chunk followed by something decodable
+        cases.append(dict(probe='raw', raw=b'3\r\nabcXX5\r\nhello\r\n0\r\n\r\n'.hex(), buf=64, sched=[]))
         for _ in range(n // 6):
             enc = bl.gen_enc(rng)
             raw, _ = mutate(rng, enc)
